@@ -1,6 +1,7 @@
 package rules
 
 import (
+	"go/token"
 	"go/types"
 	"strings"
 
@@ -58,6 +59,7 @@ func checkC16(c *Ctx) {
 	// after quiescence the hub's replay history holds exactly the stored-and-not-deleted
 	// messages only if the search that drops a deleted message looks at every slot of the ring
 	// (decided by C15's ring-walk rule)
+	c.c16NoAliasedQueue()
 	nW := c.borrow(checkC15, "C15/WIRING", "C16/RELAY/wired", "the hub is registered on the AfterMessageStored and AfterMessageDeleted brokers with callbacks that reach Dispatch and Delete")
 	r.Floor("C16/RELAY/wired", "borrowed obligations", nW, 2)
 	nH := c.borrow(checkC15, "C15/HISTORY/full-cycle", "C16/HISTORY/full-cycle", "every walk over the history ring that looks for a message inspects all N slots")
@@ -248,4 +250,82 @@ func (c *Ctx) c16Async(pm *pairModel) {
 		}
 	}
 	r.Floor("C16/ORDER/async", "instantiations of AsyncEventBroker.Emit analysed", n, 1)
+}
+
+// c16NoAliasedQueue: events that wait in a slice (a per-listener queue) are delivered exactly
+// once only if the slice they wait in is not reused while they wait. `batch := q.pending;
+// q.pending = q.pending[:0]` leaves batch and the live queue on one backing array: what is
+// emitted while the batch is being delivered overwrites its undelivered tail — some events are
+// lost, others delivered twice, and the count still adds up.
+func (c *Ctx) c16NoAliasedQueue() {
+	r, p := c.R, c.P
+	rule := "C16/QUEUE/no-alias"
+	r.Rule(rule, "in pkg/extension a slice field is never cut back in place (f = f[:0]) while a value loaded from it earlier is still used afterwards: a queue that is handed off for delivery is replaced (nil or a new slice), not truncated")
+	n, nBad := 0, 0
+	ord := map[string]int{}
+	seenFn := map[*ssa.Function]bool{}
+	for _, fn := range p.Funcs {
+		if eng.FuncPkgPath(fn) != eng.Mod+"/pkg/extension" || seenFn[fn] || p.IsTestSupport(fn) {
+			continue
+		}
+		seenFn[fn] = true
+		fn := fn
+		eng.EachInstr(fn, func(in ssa.Instruction) {
+			st, ok := in.(*ssa.Store)
+			if !ok {
+				return
+			}
+			fa, ok := st.Addr.(*ssa.FieldAddr)
+			if !ok {
+				return
+			}
+			f := eng.FieldOfAddr(fa)
+			if f == nil {
+				return
+			}
+			if _, isSl := f.Type().Underlying().(*types.Slice); !isSl {
+				return
+			}
+			sl, ok := st.Val.(*ssa.Slice)
+			if !ok || sl.High == nil {
+				return
+			}
+			if k, isC := eng.ConstInt(sl.High); !isC || k != 0 {
+				return
+			}
+			if !eng.SameField(eng.LoadedField(sl.X), f) {
+				return
+			}
+			n++
+			cons := siteCons(p, in, ord, "truncate:"+f.Name())
+			// earlier loads of the same field whose value is still used after the truncation
+			var late ssa.Instruction
+			eng.EachInstr(fn, func(x ssa.Instruction) {
+				ld, isLd := x.(*ssa.UnOp)
+				if !isLd || ld.Op != token.MUL || !eng.SameField(eng.LoadedField(ld), f) || ld == sl.X || !eng.Dominates(x, in) {
+					return
+				}
+				if ld.Referrers() == nil {
+					return
+				}
+				for _, ref := range *ld.Referrers() {
+					if _, isDbg := ref.(*ssa.DebugRef); isDbg || ref == ssa.Instruction(sl) {
+						continue
+					}
+					if eng.Dominates(in, ref) || (&eng.Search{Target: func(y ssa.Instruction) bool { return y == ref }}).After(in) != nil {
+						late = ref
+					}
+				}
+			})
+			if late != nil {
+				nBad++
+				r.Bad(rule, cons, p.InstrPos(in), "%s is cut back in place at %s while a value loaded from it before is still used at %s: the two share one backing array, so what is appended next overwrites entries that are still waiting to be delivered (events lost, others delivered twice)", f.Name(), p.InstrPos(in), p.InstrPos(late))
+			} else {
+				r.Ok(rule, cons, p.InstrPos(in), "nothing loaded from %s before the truncation is used after it", f.Name())
+			}
+		})
+	}
+	if n == 0 {
+		r.Ok(rule, "pkg/extension", "", "no slice field of the brokers is cut back in place")
+	}
 }
